@@ -52,19 +52,29 @@ func (d *intDecoder) parseInt(b []byte) (int64, error) {
 		isNegative = true
 	}
 	maxDigit := len(b)
+	if maxDigit == 0 {
+		return 0, fmt.Errorf("invalid number: no digits")
+	}
 	if maxDigit > pow10i64Len {
 		return 0, fmt.Errorf("invalid length of number")
 	}
-	sum := int64(0)
+	// at most 19 digits: the magnitude always fits in uint64
+	sum := uint64(0)
 	for i := 0; i < maxDigit; i++ {
-		c := int64(b[i]) - 48
-		digitValue := pow10i64[maxDigit-i-1]
+		c := uint64(b[i]) - 48
+		digitValue := uint64(pow10i64[maxDigit-i-1])
 		sum += c * digitValue
 	}
 	if isNegative {
-		return -1 * sum, nil
+		if sum > 1<<63 {
+			return 0, fmt.Errorf("number out of range of int64")
+		}
+		return -int64(sum), nil
 	}
-	return sum, nil
+	if sum > 1<<63-1 {
+		return 0, fmt.Errorf("number out of range of int64")
+	}
+	return int64(sum), nil
 }
 
 var (
@@ -109,6 +119,10 @@ func (d *intDecoder) decodeStreamByte(s *Stream) ([]byte, error) {
 			num := s.buf[start:s.cursor]
 			if len(num) < 2 {
 				goto ERROR
+			}
+			if len(num) > 2 && num[1] == '0' {
+				// leading zero: "-0" must not be followed by another digit
+				return nil, d.typeError(num, s.totalOffset())
 			}
 			return num, nil
 		case '0':
@@ -160,6 +174,17 @@ func (d *intDecoder) decodeByte(buf []byte, cursor int64) ([]byte, int64, error)
 			return numZeroBuf, cursor, nil
 		case '-', '1', '2', '3', '4', '5', '6', '7', '8', '9':
 			start := cursor
+			if char(b, cursor) == '-' {
+				cursor++
+				if !numTable[char(b, cursor)] {
+					return nil, 0, errors.ErrInvalidCharacter(char(b, cursor), "number(integer)", cursor)
+				}
+				if char(b, cursor) == '0' {
+					// "-0": a digit after it is not part of the number
+					cursor++
+					return buf[start:cursor], cursor, nil
+				}
+			}
 			cursor++
 			for numTable[char(b, cursor)] {
 				cursor++
